@@ -208,6 +208,33 @@ def run(res, ctx):
                     if d is not None:
                         reqs.append(C.scan_request(raw))
                         expect.append(raw)
+        # bytes the encoding cannot decode, in a COMMENT (the parser accepts them there, so the file is scanned): the bidi character elsewhere in the file is still
+        # reported, on its line, through file and stdin (found on the unchanged tree: B613 re-decoded the text strictly and died in UnicodeDecodeError; repaired by 057b012)
+        for ch in chars[:2]:
+            for raw, line in ((b"import pickle\n# caf\xe9 latin-1 bytes in a utf-8 file\ns = '" + ch.encode("utf-8") + b"'\n", 3), (b"x = 1  # \xff\xfe\n# " + ch.encode("utf-8") + b"\n", 2),
+                              (b"# " + ch.encode("utf-8") + b" first\ny = 2  # \xc0\x80 overlong\n", 1)):
+                for chan in ("file", "stdin"):
+                    r = scan_file(scratch, raw) if chan == "file" else scan_stdin(raw)
+                    res.case(("bidi-undecodable-comment", ch, line, chan), True)
+                    res.count("bidi:undecodable-comment")
+                    ok, fs = False, None
+                    try:
+                        fs, errs = findings_of_json(r["out"])
+                        b = [f for f in fs if f[0] == "B613"]
+                        ok = (len(b) == 1 and b[0][3] == line) or bool(errs)      # reported on its line — or the file is skipped with a reason
+                    except Exception:
+                        pass
+                    if not ok or r["exc"] is not None:
+                        res.violation("a bidirectional control character in a file with undecodable bytes in a comment is neither reported as B613 nor is the file skipped with a reason",
+                                      {"channel": chan, "source_hex": raw.hex(), "char": "U+%04X" % ord(ch), "findings": [list(x) for x in fs] if fs else None, "exit": r["exit"], "exc": r["exc"]})
+                if d is not None:
+                    try:
+                        rq = C.scan_request(raw)
+                    except (SyntaxError, ValueError):
+                        rq = None            # tokenize refuses the first lines: bandit skips such a file, there is nothing for the model to scan
+                    if rq is not None:
+                        reqs.append(rq)
+                        expect.append(raw)
         # the same characters arriving in a declared legacy encoding that can express them (seeded change C19-m3 pre-filtered on the UTF-8 lead bytes)
         for codec, ch in (("cp1255", "\u200f"), ("iso-8859-8", "\u200f"), ("gb18030", "\u202e"), ("gb18030", "\u2066"), ("utf-8", "\u202e")):
             for tmpl, line in (("# -*- coding: {codec} -*-\nx = 1\ns = 'ab{c}cd'  # note\n", 3), ("# -*- coding: {codec} -*-\nimport os  # {c}\nos.system(cmd)\n", 2)):
